@@ -1558,6 +1558,19 @@ impl VisitMut for Norm {
                             self.log("N7k-option-filter", sp);
                         }
                     }
+                    "max" if mc.args.len() == 1 && self.option_combinators && matches!(&mc.args[0], Expr::Call(c) if matches!(&*c.func, Expr::Path(p) if p.path.is_ident("Some")) && c.args.len() == 1) => {
+                        // N7n (option option_combinators=1): OPT.max(Some(V)) => match OPT { Some(m) => if m > V { Some(m) } else { Some(V) }, None => Some(V) }
+                        // (Ord for Option: None < Some(_), Some compares the payloads; `max` returns its argument when the two are equal)
+                        if let Expr::Call(c) = &mc.args[0] {
+                            let v = &c.args[0];
+                            let recv = &mc.receiver;
+                            let m = Ident::new("__hq_mx_m", Span::call_site());
+                            let vv = Ident::new("__hq_mx_v", Span::call_site());
+                            let ne: Expr = parse_quote!({ let #vv = #v; match #recv { Some(#m) => if #m > #vv { Some(#m) } else { Some(#vv) }, None => Some(#vv) } });
+                            *e = ne;
+                            self.log("N7n-option-max-some", sp);
+                        }
+                    }
                     "or_else" if mc.args.len() == 1 && self.option_combinators && matches!(&mc.args[0], Expr::Closure(c) if c.inputs.is_empty() && !body_has_return(&c.body)) => {
                         // N7m (option option_combinators=1): OPT.or_else(|| X) => match OPT { Some(x) => Some(x), None => X } (X stays lazily evaluated)
                         if let Expr::Closure(c) = &mc.args[0] {
